@@ -36,7 +36,8 @@ LEVEL = {'text': 'Machine-checked (Coq 8.16, no axioms) theorems over ALL byte l
          'design_ref': '4.1', 'technique': 'Coq proof (generic layout round trip, layout predicates) + extracted-model correspondence',
          'note': 'Trusted: Coq kernel, ExtrOcamlBasic extraction, harness, Gen translators. No axioms, nothing _partial. Names of codes are '
                  'relative to the dictionaries regenerated from the code (C17 ties those to the registries). Only pinned by correspondence '
-                 '(not proved): that the hand model equals the Python code; independence of two live ELFFile objects (the model has no shared '
+                 '(not proved): that the hand model equals the Python code; independence of the stream kind the bytes come from (BytesIO, real '
+                 'files, mmap, gzip, foreign descriptor: a dimension of the correspondence); independence of two live ELFFile objects (the model has no shared '
                  'state; pinned by the pair stream); behaviour on malformed images (model_drift stream). The theorems '
                  'require, per specialised section kind, what its constructor checks (valid sh_link target, entry size, readable '
                  'compression/hash header, attributes version byte) — part of wf_image.'}
